@@ -32,7 +32,7 @@ CHECKS = {
             "strings contain no raw < > quote and only the four entities; an independent strict reader recovers from write(forest) exactly "
             "the forest's events (balanced tags, self-closed void elements, double-quoted attribute values decoded to the originals); "
             "substituting strings changes no skeleton; (conversion level, C02_names_from_maps) for EVERY document and options, every tag of the forest convert returns is a style-map tag verbatim or a tag the "
-            "converter builds - name among 21 literals, attribute names among 8 literals plus the image converter's on img - so document strings occur only as text and attribute values. The model writer is compared in Coq with HtmlWriter's actual output, which is also lexed by the Coq reader.",
+            "converter builds - name among 21 literals, attribute names among 8 literals plus the image converter's on img - so document strings occur only as text and attribute values; (STRING level, C02_html_well_formed / _names / _void_self_closed / _specials) for every source and options whose style map in force has plain names, the string convert_to_html returns lexes, balances, lexes back to exactly the forest written, self-closes exactly the childless br / hr / img / input, carries only style-map or literal names, and its < > and double-quote characters are exactly those of the markup. The model writer is compared in Coq with HtmlWriter's actual output, which is also lexed by the Coq reader.",
             BASE_NOTE + "That the VALUES derived from several strings (id_prefix ++ name, '#' ++ ...) stay distinct for distinct originals end-to-end is tested (substitution stream), not proved.",
             "DESIGN.md §5 C02, §15"),
     "C07": ("proof",
